@@ -183,6 +183,95 @@ class C06:
                                       "raw": [hx(Client.encode(v)) for v in culprit[:5]]})
                 self.rep.count("crash." + name)
 
+    def sweep_sequences(self, r, tier):
+        """State left behind by one command must not wedge a later one: after a blocking pop that timed out / was served /
+        whose client went away, after an aborted or discarded transaction, after a refused script — every way an element can
+        then reach the key (direct, inside EXEC, script, RENAME) and a few reads must be answered, the process alive."""
+        enders = {
+            "bpop-timeout": lambda c2: self._quiet(c2, ["BLPOP", "sq", "sq2", "0.05"], 0.4),
+            "brpop-timeout": lambda c2: self._quiet(c2, ["BRPOP", "sq", "0.05"], 0.4),
+            "bpop-hangup": lambda c2: (c2.send("BLPOP", "sq", "sq2", "0"), time.sleep(0.05), c2.close()),
+            "bpop-served": lambda c2: (c2.send("BLPOP", "sq", "0"), time.sleep(0.05), self._quiet(self.srv.client(timeout=1.0), ["RPUSH", "sq", "s"], 0.5), self._quiet(c2, None, 0.3)),
+            "multi-discard": lambda c2: [self._quiet(c2, x, 0.5) for x in (["MULTI"], ["BLPOP", "sq", "0"], ["RPUSH", "sq", "q"], ["DISCARD"])],
+            "multi-exec-bpop": lambda c2: [self._quiet(c2, x, 0.5) for x in (["MULTI"], ["BLPOP", "sq", "0"], ["BRPOP", "sq2", "0"], ["EXEC"])],
+            "watch-abort": lambda c2: [self._quiet(c2, x, 0.5) for x in (["WATCH", "sq"], ["MULTI"], ["RPUSH", "sq", "w"])] + [self._quiet(self.srv.client(timeout=1.0), ["DEL", "sq"], 0.5), self._quiet(c2, ["EXEC"], 0.5)],
+            "subscribe-then-close": lambda c2: (c2.send("SUBSCRIBE", "sq"), time.sleep(0.03), c2.close()),
+        }
+        followers = [["RPUSH", "sq", "a"], ["LPUSH", "sq2", "a", "b"], ["MULTI"], ["RPUSH", "sq", "b"], ["LPOP", "sq"], ["EXEC"],
+                     ["EVAL", "return redis.call('RPUSH', KEYS[1], 'c')", "1", "sq"], ["RPUSH", "sq:src", "d"], ["RENAME", "sq:src", "sq"], ["RENAME", "sq", "sq2"],
+                     ["LRANGE", "sq", "0", "-1"], ["DEL", "sq", "sq2"], ["PUBLISH", "sq", "m"], ["FLUSHDB"]]
+        for tag, ender in enders.items():
+            self.reseed()
+            self.rep.evaluations += 1
+            try:
+                c2 = self.srv.client(timeout=1.0)
+                ender(c2)
+                try:
+                    c2.close()
+                except Exception:
+                    pass
+            except (OSError, Closed, TimeoutError, ProtocolError):
+                pass
+            time.sleep(0.08)
+            done = []
+            for cmd in followers:
+                done.append(cmd)
+                try:
+                    c3 = self.srv.client(timeout=2.0)
+                    c3.cmd(*cmd, timeout=2.0)
+                    c3.close()
+                    why = None
+                except TimeoutError:
+                    why = "no answer to %s within 2 s" % " ".join(cmd)
+                except (OSError, Closed, ProtocolError) as e:
+                    why = self.alive() or "connection refused/closed (%s)" % type(e).__name__
+                if cmd == ["MULTI"] or (done.count(["MULTI"]) > done.count(["EXEC"])):
+                    pass        # MULTI…EXEC of the followers are sent on separate connections on purpose: each is one harmless command there
+                if why:
+                    why = self.alive() or why
+                    self.failures.append({"why": "after %s: %s" % (tag, why), "commands": [["<%s>" % tag]] + done, "name": "sequence", "raw": []})
+                    self.restart()
+                    break
+            self.rep.nontrivial(("sequence", tag, len(done)))
+        # the same followers inside ONE transaction on one connection after each ender
+        for tag, ender in enders.items():
+            self.reseed()
+            self.rep.evaluations += 1
+            try:
+                c2 = self.srv.client(timeout=1.0)
+                ender(c2)
+                try:
+                    c2.close()
+                except Exception:
+                    pass
+            except (OSError, Closed, TimeoutError, ProtocolError):
+                pass
+            time.sleep(0.08)
+            seq = [["MULTI"], ["RPUSH", "sq", "a"], ["RPUSH", "sq2", "b"], ["LPOP", "sq"], ["EVAL", "return redis.call('RPUSH', KEYS[1], 'c')", "1", "sq"], ["RENAME", "sq2", "sq"], ["EXEC"], ["PING"]]
+            try:
+                c3 = self.srv.client(timeout=3.0)
+                for cmd in seq:
+                    c3.cmd(*cmd, timeout=3.0)
+                c3.close()
+                why = None
+            except TimeoutError:
+                why = "transaction after %s not answered within 3 s" % tag
+            except (OSError, Closed, ProtocolError) as e:
+                why = "connection closed (%s)" % type(e).__name__
+            if why:
+                why = self.alive() or why
+                self.failures.append({"why": "after %s: %s" % (tag, why), "commands": [["<%s>" % tag]] + seq, "name": "sequence-tx", "raw": []})
+                self.restart()
+            self.rep.nontrivial(("sequence-tx", tag, why is None))
+
+    def _quiet(self, c, cmd, timeout):
+        try:
+            if cmd is None:
+                return c.read_reply(timeout=timeout)
+            return c.cmd(*cmd, timeout=timeout)
+        except (TimeoutError, Closed, ProtocolError, OSError):
+            return None
+
     def sweep_frames(self, r, tier):
         frames = [b"*1\r\n" * n + tail for n in (10, 128, 129, 1000, 20000, 200000) for tail in (b"", b"$4\r\nPING\r\n", b":1\r\n")]
         frames += [b"*%d\r\n" % n for n in (10 ** 6, 10 ** 9, 2 ** 31, 2 ** 62, 2 ** 63 - 1)]
@@ -388,6 +477,7 @@ def main(tier, seed):
     try:
         site_dis = c.site_grid(r)
         c.sweep_frames(r, tier)
+        c.sweep_sequences(r, tier)
         c.sweep_commands(r, tier)
     finally:
         c.close()
